@@ -204,7 +204,7 @@ void Broker::maybe_duplicate(BConn& c, const Packet& a, ns_t delay, int ridx) {
     if (knobs.dup_ack_p <= 0 || healed) return;
     auto r = rng_for(c.conn, "dupack", ++emit_counter_);
     if (!r.chance(knobs.dup_ack_p)) return;
-    int sidx = emit(c, a, delay + r.range(0, 50 * MS), ridx);
+    int sidx = emit(c, a, delay + r.pick<ns_t>({0, 1 * MS, 50 * MS, 500 * MS, 3 * SEC}) + r.range(0, 20 * MS), ridx);
     if (sidx >= 0) { sent[sidx].dup_ack = true; w.count("fault.duplicate_ack"); }
 }
 
